@@ -169,7 +169,7 @@ theorem stored_blocksim (s : Bytes) (c : Cutter) (hc : c.OK) (hb : c.bits.bytes 
       first
         | (intro h; simp at h; done)
         | (intro _; exact hub)
-        | (intro _; rfl)
+        | (intro _; first | rfl | trivial)
     simp only [hfit, if_false]
     rw [getElem?_eq_getD s q (by omega), getElem?_eq_getD s (q + 1) (by omega), getElem?_eq_getD s (q + 2) (by omega),
       getElem?_eq_getD s (q + 3) (by omega)]
